@@ -632,6 +632,13 @@ def c_forced(op):
     ch = _C_NUM
     if op in NUM1:
         return ch.map(lambda a: [op, a])
+    if op == "copysign":
+        # the sign source is often exactly zero (C's copysign treats +0 as positive): a symbol, a symbol minus one of the
+        # sampled values, or a literal zero
+        sy = st.sampled_from(NAMES[:4]).map(lambda n: ["sym", n])
+        zero_prone = st.one_of(sy, st.tuples(sy, st.sampled_from([1.0, -1.0, 0.5, 2.0])).map(lambda t: ["sub", t[0], ["const", t[1]]]),
+                               st.just(["const", 0.0]), ch)
+        return st.tuples(ch, zero_prone).map(lambda t: [op, t[0], t[1]])
     if op in NUM2:
         return st.tuples(ch, ch).map(lambda t: [op, t[0], t[1]])
     if op == "cpow":
